@@ -596,8 +596,8 @@ theorem pInt_intStr (i : Int) : pInt (intStr i) = some i := by
 theorem law_dec_float (neg : Bool) (c : Nat) (e : Int) :
     (floatOfDec (.fin neg c e)).isFinite = true
     ∧ (floatOfDec (.fin neg c e)).isZero = (c == 0)
-    ∧ (c ≠ 0 → (decOfFloat (floatOfDec (.fin neg c e))).canon = (Dec.fin neg c e).canon) := by
-  refine ⟨rfl, ?_, fun _ => rfl⟩
+    ∧ (decOfFloat (floatOfDec (.fin neg c e))).canon = (Dec.fin neg c e).canon := by
+  refine ⟨rfl, ?_, rfl⟩
   cases c <;> simp [floatOfDec, F.isZero]
 
 theorem digits_ne_lit (n : Nat) (r : Str) (c : Char) (l : Str) (hc : c.isDigit = false) : natStr n ++ r ≠ c :: l := by
